@@ -35,6 +35,8 @@ type avoid struct {
 	enumBeyond0     bool
 	lateColSparse   bool
 	aggStale        bool
+	unionAfterClear bool
+	doubleDelete    bool
 	rollbackInsert  bool
 	sortDupKeys     bool
 	rekey           bool
@@ -52,7 +54,9 @@ func (a avoid) list() (out []string) {
 	add(a.lenMergeThenPut, "len-merge-put")
 	add(a.dupKeyInTxn, "dup-key-in-txn")
 	add(a.enumBeyond0, "enum-beyond-block0")
-	add(a.aggStale, "agg-stale")
+	add(a.aggStale, "agg-missing-value")
+	add(a.unionAfterClear, "union-after-clear")
+	add(a.doubleDelete, "double-delete")
 	add(a.rollbackInsert, "rollback-insert")
 	add(a.sortDupKeys, "sort-dup-keys")
 	add(a.rekey, "rekey")
